@@ -280,6 +280,8 @@ pub fn cases(target: &str, thorough: bool, seed: u64) -> Vec<Case> {
                     raw.push((format!("request/enum(ctx{})", ctx.len()), b));
                 });
             }
+            let toks: [&[u8]; 12] = [b"GET ", b"POST ", b"/", b" HTTP/1.1", b"\r\n", b"Content-Length: ", b"5", b"abcde", b":", b" ", b"X-Forwarded-For: ", "\u{e9}".as_bytes()];
+            enum_over(&toks, l, |s| raw.push(("request/tokens".into(), s)));
             for (i, s) in request_seeds().iter().enumerate() {
                 prefixes(s, &format!("request/seed{}", i), &mut raw);
                 text_mutants(s, &format!("request/seed{}", i), false, &mut raw);
@@ -294,6 +296,8 @@ pub fn cases(target: &str, thorough: bool, seed: u64) -> Vec<Case> {
                     raw.push((format!("response/enum(ctx{})", ctx.len()), b));
                 });
             }
+            let toks: [&[u8]; 12] = [b"HTTP/1.1 ", b"200 ", b"OK", b"\r\n", b"Content-Length: ", b"Transfer-Encoding: chunked", b"5", b"hello", b":", b" ", b"0", "\u{e9}".as_bytes()];
+            enum_over(&toks, l, |s| raw.push(("response/tokens".into(), s)));
             for (i, s) in response_seeds().iter().enumerate() {
                 prefixes(s, &format!("response/seed{}", i), &mut raw);
                 text_mutants(s, &format!("response/seed{}", i), true, &mut raw);
@@ -369,6 +373,15 @@ pub fn cases(target: &str, thorough: bool, seed: u64) -> Vec<Case> {
                         b.extend_from_slice(b"\n}\n}\n");
                     }
                     raw.push((format!("conf/enum(ctx{})", ctx.len()), b));
+                });
+            }
+            // token-level enumeration: keywords and quotes in every arrangement (finds e.g. `host " {`)
+            let toks: [&[u8]; 14] = [b"server {\n", b"host ", b"route ", b"\"", b"\"\"", b"{", b"}", b"a", b" ", b"\n", b"#", b"k 1\n", b"k \"v\"\n", "\u{e9}".as_bytes()];
+            for ctx in [&b""[..], b"server {\n"] {
+                enum_over(&toks, l, |s| {
+                    let mut b = ctx.to_vec();
+                    b.extend_from_slice(&s);
+                    raw.push((format!("conf/tokens(ctx{})", ctx.len()), b));
                 });
             }
             for (i, s) in conf_seeds().iter().enumerate() {
